@@ -298,7 +298,10 @@ Definition h_setrange (args : list bytes) : hres :=
   need 3 args
     match parse_int (a1 args) with
     | None => HErr
-    | Some off => HBody (fun now d =>
+    | Some off =>
+        (* 512MB limit, checked in the prologue *)
+        if off >? 536870912 - zlen (a2 args) then HErr else
+        HBody (fun now d =>
         if off >? 1048576 then BUnm else
         lift (api_setrange (a0 args) off (a2 args) now d) (fun n d' => ret [WInt n] d'))
     end.
@@ -343,7 +346,7 @@ Definition h_setbit (args : list bytes) : hres :=
     match parse_int (a1 args) with
     | None => HErr
     | Some off =>
-        if off <? 0 then HErr else
+        if (off <? 0) || (off >=? 4294967296) then HErr else
         match parse_int (a2 args) with
         | None => HErr
         | Some v => if negb ((v =? 0) || (v =? 1)) then HErr
